@@ -722,7 +722,7 @@ def rule_r4(ctx):
         c = repo.cls(ck)
         hook = repo.lookup(c, HOOK_ADD)
         ctx.require(isinstance(hook, FuncInfo), f"{ck}._set_graph missing")
-        in_hook = any("producer()" in norm(n.test) for n in own_nodes(hook.node) if isinstance(n, ast.If) and _rejects(n))
+        in_hook = _producer_test_everywhere(hook)
         if not in_hook:
             # the hook may start by running a side-effect-free checker that holds the test
             first = next((s for s in hook.node.body if not FuncInfo._trivial(s)), None)
@@ -730,7 +730,14 @@ def rule_r4(ctx):
                     and norm(first.value.func.value) == "self" and [norm(a) for a in first.value.args] == [hook.params[1]]:
                 chk = repo.lookup(c, first.value.func.attr)
                 if isinstance(chk, FuncInfo) and not any(True for _ in field_writes(chk)):
-                    in_hook = any("producer()" in norm(n.test) for n in own_nodes(chk.node) if isinstance(n, ast.If) and _rejects(n))
+                    in_hook = _producer_test_everywhere(chk)
+                    if not in_hook and any("producer()" in norm(n.test) for n in own_nodes(chk.node) if isinstance(n, ast.If) and _rejects(n)):
+                        ctx.check("R4", f"{c.name}.{chk.name}: the producer() test is on every path", False, chk, chk.node,
+                                  f"{chk.local} returns on some path before it has tested producer(): a value that is already owned by the graph "
+                                  "(for instance as a graph output, which is never tested) becomes a graph input/initializer although a node produces it",
+                                  how="rejecting producer() test on every entry-to-exit path of the checker (CFG)",
+                                  construct="producer() test bypassed by an early return")
+                        continue
         if in_hook:
             ctx.ob("R4", f"{c.name}._set_graph tests producer()", True, how="rejecting test inside the hook")
             continue
@@ -761,7 +768,7 @@ def rule_r4(ctx):
                             continue
                         pidx = [norm(x) for x in pre.args].index(arg) + 1
                         pname = chk.params[pidx] if pidx < len(chk.params) else None
-                        has = any(isinstance(n, ast.If) and _rejects(n) and f"{pname}.producer()" in norm(n.test) for n in own_nodes(chk.node))
+                        has = pname is not None and _producer_test_everywhere(chk, f"{pname}.producer()")
                         a, b = cfg.nodes_containing(pre), cfg.nodes_containing(call)
                         if has and a and b and cfg.dominates(a[0], b[0]):
                             ok = True
@@ -780,6 +787,18 @@ def rule_r4(ctx):
                               f"sets {flag} on a value without testing producer() first "
                               "(an initializer/input with a producing node)",
                               how="rejecting producer() test dominates the hook call")
+
+
+def _producer_test_everywhere(fn: FuncInfo, needle: str = "producer()") -> bool:
+    """A rejecting `….producer() …` test lies on every path from the entry of fn to a normal exit: no early return
+    ('already owned by this graph, validated before') lets a value through untested - a value can be owned by the graph as
+    an output, which is never tested for a producer."""
+    tests = [n for n in own_nodes(fn.node) if isinstance(n, ast.If) and _rejects(n) and needle in norm(n.test)]
+    if not tests:
+        return False
+    cfg = CFG(fn.node)
+    ids = {x.id for t in tests for x in cfg.node_of(t) if x.kind == "test"}
+    return bool(ids) and cfg.all_paths_through(cfg.entry, ids, {cfg.exit.id}, exc=False)
 
 
 def _rejects(ifnode: ast.If) -> bool:
